@@ -572,13 +572,14 @@ func (a *align) RefCoordinates(name string, refstart, reflen int) (alistart, ali
 			alistart++
 		} else {
 			alilen++
-			if tmpi >= refstart+reflen-1 {
+			// (written without refstart+reflen, which may overflow)
+			if tmpi-refstart >= reflen-1 {
 				break
 			}
 		}
 	}
 
-	if refstart+reflen > len(seq)-ngaps {
+	if reflen > len(seq)-ngaps-refstart {
 		err = fmt.Errorf("start + Length (%d + %d) on reference sequence falls outside the sequence", refstart, reflen)
 	}
 
